@@ -158,6 +158,29 @@ fn view_obs_inner(d: &[u8], lookups: &[u32], tags_out: &mut Vec<String>) -> (Vec
     if !m1 {
         bad("tags_match_exactly(own tags) is false".into());
     }
+    // `tags_match_exactly` takes ANY IntoIterator: the answer must not depend on the iterator's
+    // size_hint (exact for slices / Vec / arrays, a mere lower bound for filter / from_fn / chains)
+    {
+        let own = || tags.iter().copied();
+        let extra = Tag::from(0x7fff_fff0u32);
+        let mut k = 0usize;
+        let shapes: Vec<(&str, bool, bool)> = vec![
+            ("vec", true, msg.tags_match_exactly(tags.clone())),
+            ("filter(all)", true, msg.tags_match_exactly(own().filter(|_| true))),
+            ("from_fn", true, msg.tags_match_exactly(std::iter::from_fn(|| { let r = tags.get(k).copied(); k += 1; r }))),
+            ("flat_map", true, msg.tags_match_exactly(own().flat_map(|t| std::iter::once(t)))),
+            ("own+extra", false, msg.tags_match_exactly(own().chain(std::iter::once(extra)))),
+            ("own+filtered extra", false, msg.tags_match_exactly(own().chain([extra].into_iter().filter(|_| true)))),
+            ("all but last", n == 0, msg.tags_match_exactly(own().take(n.saturating_sub(1)))),
+            ("all but last (filter)", n == 0, msg.tags_match_exactly(own().take(n.saturating_sub(1)).filter(|_| true))),
+            ("skip first", n == 0, msg.tags_match_exactly(own().skip(1).filter(|_| true))),
+        ];
+        for (name, want, got) in shapes {
+            if want != got {
+                bad(format!("tags_match_exactly({}) = {} for a message with {} tags", name, got, n));
+            }
+        }
+    }
     if tags.len() != n {
         bad(format!("tags().len()={} but len()={}", tags.len(), n));
     }
@@ -434,6 +457,39 @@ impl Exec for TlvViewExec {
                 }
                 if ta.partial_cmp(&tb) != Some(c) || (ta < tb) != (x < y) || (ta == tb) != (x == y) || tb.cmp(&ta) != c.reverse() {
                     bad("PartialOrd / Eq / Ord are inconsistent");
+                }
+                // track traits: Hash agrees with Eq, Clone / Copy give equal values, `ne` is `!eq`, min / max / clamp
+                // follow Ord, Debug does not panic, hashed and ordered collections see one key per value
+                {
+                    use std::hash::{Hash, Hasher};
+                    let h = |t: &Tag| {
+                        let mut s = std::collections::hash_map::DefaultHasher::new();
+                        t.hash(&mut s);
+                        s.finish()
+                    };
+                    if (ta == tb) && h(&ta) != h(&tb) {
+                        bad("equal tags hash differently");
+                    }
+                    let tc = ta.clone();
+                    let td = ta;
+                    if tc != ta || td != ta || h(&tc) != h(&ta) || tc.cmp(&ta) != std::cmp::Ordering::Equal {
+                        bad("a clone / copy of a tag is not equal to it");
+                    }
+                    if (ta != tb) == (ta == tb) {
+                        bad("`!=` is not the negation of `==`");
+                    }
+                    if ta.max(tb).value() != x.max(y) || ta.min(tb).value() != x.min(y) || (ta <= tb) != (x <= y) || (ta >= tb) != (x >= y) || (ta > tb) != (x > y) {
+                        bad("min / max / comparison operators do not follow the little-endian values");
+                    }
+                    let hs: std::collections::HashSet<Tag> = [ta, tb, tc].into_iter().collect();
+                    let bs: std::collections::BTreeSet<Tag> = [ta, tb, tc].into_iter().collect();
+                    let want = if x == y { 1 } else { 2 };
+                    if hs.len() != want || bs.len() != want {
+                        bad("HashSet / BTreeSet do not see one key per tag value");
+                    }
+                    if format!("{:?}", ta).is_empty() || format!("{:#?}", tb).is_empty() {
+                        bad("empty Debug output");
+                    }
                 }
                 let ord = |o: std::cmp::Ordering| match o {
                     std::cmp::Ordering::Less => "lt",
